@@ -58,9 +58,11 @@ Types == <<
   \* key types that are shortcuts to string types, and a key type given by a format
   [name |-> "@KA",  n |-> Ref(<<"@K">>, <<>>)],
   [name |-> "@KU",  n |-> Ref(<<"@K", "@K2">>, <<>>)],
-  [name |-> "@KE",  n |-> Lit(StrD(SEmail), <<R("type", IdV("email"))>>)]
+  [name |-> "@KE",  n |-> Lit(StrD(SEmail), <<R("type", IdV("email"))>>)],
+  \* a key type that reaches the same string type along two paths (no recursion)
+  [name |-> "@KD",  n |-> Ref(<<"@KA", "@KU">>, <<>>)]
 >>
-KeyTypes == {"@K", "@K2", "@KA", "@KU", "@KE"}
+KeyTypes == {"@K", "@K2", "@KA", "@KU", "@KE", "@KD"}
 Env == [types |-> Types, enums |-> <<>>]
 TNames == {Types[i].name : i \in DOMAIN Types}
 
@@ -93,7 +95,7 @@ ShortcutRoots == { Obj(<<SC("@K", Lit(NumD(N1), <<>>))>>, <<>>),
                    Obj(<<SC("@K", Lit(NumD(N1), <<>>))>>, <<R("additionalProperties", IdV("string"))>>),
                    Obj(<<SC("@K2", Ref(<<"@I", "@S">>, <<>>))>>, <<>>),
                    Obj(<<SC("@KA", Lit(NumD(N1), <<>>))>>, <<>>), Obj(<<SC("@KU", Lit(NumD(N1), <<OptR>>)), P(Kx, Lit(NumD(N2), <<OptR>>))>>, <<>>),
-                   Obj(<<SC("@KE", Lit(NumD(N1), <<>>))>>, <<>>) }
+                   Obj(<<SC("@KE", Lit(NumD(N1), <<>>))>>, <<>>), Obj(<<SC("@KD", Lit(NumD(N1), <<>>))>>, <<>>) }
 AllOfRoots == { Obj(<<P(Kx, Lit(NumD(N1), <<OptR>>))>>, <<R("allOf", TRef("@C"))>>),
                 Obj(<<>>, <<R("allOf", ListV(<<TRef("@A2"), TRef("@AA")>>))>>),
                 Obj(<<P(Kp, Ref(<<"@AAA">>, <<>>))>>, <<R("allOf", TRef("@A2")), R("additionalProperties", IdV("integer"))>>),
